@@ -13,7 +13,7 @@ if ! ( cd "$D/repo" && patch -p1 -s < "$PATCH" ); then echo "$NAME: PATCH-FAILED
 if ! ( cd "$D/repo" && go build ./... ) >"$D/build.log" 2>&1; then echo "$NAME: DOES-NOT-BUILD"; cat "$D/build.log" | head; exit 3; fi
 tests=ok
 for i in 1 2; do
-  if ( cd "$D/repo" && go test -vet=off -count=1 ./... ) >"$D/test.log" 2>&1; then tests=ok; break; else tests=fail; fi
+  if ( cd "$D/repo" && go test -vet=off -count=1 -timeout 90s ./... ) >"$D/test.log" 2>&1; then tests=ok; break; else tests=fail; fi
 done
 if [ $tests = fail ]; then echo "$NAME: FAILS-REPO-TESTS (not a valid mutant)"; grep -E "^(--- FAIL|FAIL)" "$D/test.log" | head -5; exit 4; fi
 for id in "$@"; do
